@@ -81,6 +81,18 @@ func newEv(t *testing.T, prop string) *Ev {
 		excluded: map[string]int64{},
 	}
 	t.Cleanup(e.Flush)
+	// probe every open finding listed for this property up front, so that its
+	// KNOWN-FINDING line does not depend on which cases the generator draws
+	for _, f := range loadFindings() {
+		if f.Status != "open" || f.Quirk == "" {
+			continue
+		}
+		for _, p := range f.Properties {
+			if p == prop {
+				e.quirk(f.Quirk)
+			}
+		}
+	}
 	return e
 }
 
